@@ -334,6 +334,10 @@ def build_jsonb_contains_top_key(
 SENTINEL_NONE: Token = Token(TokenType.SENTINEL, "SENTINEL")
 
 
+def _parse_prior(self: Parser) -> exp.Prior:
+    return self.expression(exp.Prior(this=self._parse_bitwise()))
+
+
 class Parser:
     """
     Parser consumes a list of tokens produced by the Tokenizer and produces a parsed syntax tree.
@@ -370,6 +374,7 @@ class Parser:
         "_chunk_index",
         "_tokens_size",
         "_node_count",
+        "_parsing_connect_by",
     )
 
     FUNCTIONS: t.ClassVar[dict[str, t.Callable]] = {
@@ -1987,6 +1992,7 @@ class Parser:
         self._chunks = []
         self._chunk_index = 0
         self._node_count = 0
+        self._parsing_connect_by = False
 
     def _advance(self, times: i64 = 1) -> None:
         index = self._index + times
@@ -5633,12 +5639,20 @@ class Parser:
         return self.expression(exp.Qualify(this=self._parse_disjunction()))
 
     def _parse_connect_with_prior(self) -> exp.Expr | None:
-        self.NO_PAREN_FUNCTION_PARSERS["PRIOR"] = lambda self: self.expression(
-            exp.Prior(this=self._parse_bitwise())
-        )
-        connect = self._parse_disjunction()
-        self.NO_PAREN_FUNCTION_PARSERS.pop("PRIOR")
-        return connect
+        # PRIOR is an operator only inside CONNECT BY. This is per-parser state: the class-level
+        # NO_PAREN_FUNCTION_PARSERS table is shared by every parser (and thread) and must not be edited
+        parsing_connect_by = self._parsing_connect_by
+        self._parsing_connect_by = True
+        try:
+            return self._parse_disjunction()
+        finally:
+            self._parsing_connect_by = parsing_connect_by
+
+    def _no_paren_function_parser(self, name: str) -> t.Callable | None:
+        parser = self.NO_PAREN_FUNCTION_PARSERS.get(name)
+        if parser is None and name == "PRIOR" and self._parsing_connect_by:
+            return _parse_prior
+        return parser
 
     def _parse_connect(self, skip_start_token: bool = False) -> exp.Connect | None:
         if skip_start_token:
@@ -6867,7 +6881,7 @@ class Parser:
             token = self._prev
             comments = self._prev_comments
 
-            if parts is None and token.text.upper() in self.NO_PAREN_FUNCTION_PARSERS:
+            if parts is None and self._no_paren_function_parser(token.text.upper()):
                 self._retreat(index)
                 return None
 
@@ -7243,7 +7257,7 @@ class Parser:
         upper = self._curr.text.upper()
 
         after_dot = prev.token_type == TokenType.DOT
-        parser = self.NO_PAREN_FUNCTION_PARSERS.get(upper)
+        parser = self._no_paren_function_parser(upper)
         if (
             optional_parens
             and parser
